@@ -58,9 +58,28 @@ SUPPORTED = {
 UNSUPPORTED = {}
 
 
+_foamj = None
+
+
+def build_foamj():
+    """The Java run time foamj compiled NOW from the current tree's lib/java/src/foamj/*.java (23 small files);
+    its class directory goes first on the class path, before the pre-built foamj.jar."""
+    global _foamj
+    if _foamj is None:
+        src = C.R + "/aldor/lib/java/src/foamj"
+        files = sorted(os.path.join(src, f) for f in os.listdir(src) if f.endswith(".java"))
+        d = C.scratch("foamj")
+        rc, out, err = C.run(["javac", "-nowarn", "-proc:none", "-d", d] + files, timeout=300)
+        if rc != 0:
+            raise C.BuildError("javac failed on the current foamj sources:\n" + (out + err)[-2000:])
+        _foamj = d
+    return _foamj
+
+
 def jars():
     RB = C.RB
-    return [RB + "/aldor/lib/java/src/foamj.jar", RB + "/aldor/lib/libfoam/al/foam.jar", RB + "/lib/aldor/src/aldor.jar"]
+    return [build_foamj(), RB + "/aldor/lib/java/src/foamj.jar", RB + "/aldor/lib/libfoam/al/foam.jar",
+            RB + "/lib/aldor/src/aldor.jar"]
 
 
 def int32_only(p):
@@ -74,14 +93,15 @@ def int32_only(p):
 
 # ------------------------------------------------------------------ Java route
 
-def java_batch(exe, progs, d, q_levels, timeout=60, extra=()):
+def java_batch(exe, progs, d, q_levels, timeout=60, extra=(), jobs=None):
     """progs: [dict(src, unit)] (unit: distinct identifier).  Translates every program at every level,
     compiles everything with ONE javac, runs every class.  Returns {(unit, q): {rc,status,out,err,stage}}."""
     env = C.aldor_env()
     os.makedirs(d + "/out", exist_ok=True)
     os.makedirs(d + "/cls", exist_ok=True)
     res = {}
-    jobs = [(p, q) for p in progs for q in q_levels]
+    if jobs is None:
+        jobs = [(p, q) for p in progs for q in q_levels]
 
     def gen(pq):
         p, q = pq
@@ -93,6 +113,8 @@ def java_batch(exe, progs, d, q_levels, timeout=60, extra=()):
         rc, out, err = C.run(C.aldor_base_args(exe) + ["-Mno-warnings", "-Q%d" % q] + list(extra) +
                              ["-Jmain", "-Fjava=%s/out/%s.java" % (d, unit), unit + ".as"], cwd=sd, env=env, timeout=timeout)
         jf = "%s/out/aldorcode/%s.java" % (d, unit)
+        if rc == 124:
+            return (p["unit"], q), {"rc": rc, "status": "timeout", "out": out, "err": err, "stage": "aldor -Fjava"}, None
         if rc != 0 or not os.path.exists(jf):
             return (p["unit"], q), {"rc": rc, "status": "gen-error", "out": out, "err": err, "stage": "aldor -Fjava"}, None
         return (p["unit"], q), None, jf
@@ -140,8 +162,10 @@ def java_batch(exe, progs, d, q_levels, timeout=60, extra=()):
     return res
 
 
-def interp_batch(exe, progs, d, q_levels, timeout=60):
+def interp_batch(exe, progs, d, q_levels, timeout=60, jobs=None):
     env = C.aldor_env()
+    if jobs is None:
+        jobs = [(p, q) for p in progs for q in q_levels]
 
     def one(pq):
         p, q = pq
@@ -154,7 +178,7 @@ def interp_batch(exe, progs, d, q_levels, timeout=60):
                              cwd=sd, env=env, timeout=timeout)
         return (p["unit"], q), {"rc": rc, "status": c03.cls(rc), "out": out, "err": err}
     with concurrent.futures.ThreadPoolExecutor(C.NCPU) as ex:
-        return dict(ex.map(one, [(p, q) for p in progs for q in q_levels]))
+        return dict(ex.map(one, jobs))
 
 
 def compare(jr, ir, oracle=None):
@@ -604,6 +628,7 @@ pr(tag: String, x: SInt): () == { stdout << tag << " " << (x::MachineInteger) <<
 bi(b: Bool): SInt == { if (b::Boolean) then K(1) else K(0) }
 tt: Bool == (true@Boolean)::Bool;
 ff: Bool == (false@Boolean)::Bool;
+mn: SInt == SIntMinus(K(-2147483647), K(1));
 """
 ALDOR_TY = {"FBool": "Bool", "FChar": "Char", "FByte": "XByte", "FHInt": "HInt", "FSInt": "SInt"}
 M31 = 1 << 31
@@ -625,7 +650,7 @@ def b_operand(ty, v):
         return "tt" if v else "ff"
     if ty == "FSInt":
         if v == -M31:
-            return "SIntMinus(K(-%d), K(1))" % (M31 - 1)       # the literal 2147483648 itself is beyond the Java int
+            return "mn"       # -2^31, built in the header: the literal 2147483648 itself is beyond the Java int
         return "K(%d)" % v if v >= 0 else "K(-%d)" % -v
     if ty == "FChar":
         return "CharNum(K(%d))" % v
@@ -683,17 +708,18 @@ def model_query(drv, lines):
     return [json.loads(x) for x in out.splitlines() if x.strip()]
 
 
-def builtin_level(rep, exe, drv, rng, quick, base, stats):
+def builtin_level(rep, exe, drv, rng, quick, base, stats, only=None, cap=None):
     """Every specified builtin the Java route supports, on boundary operands inside AND outside the side
     condition: (i) the real JVM value equals the model's jsem (validates the embedding of Java), (ii) inside the
     side condition the JVM value equals the interpreter's and the specification's (the property, builtin level)."""
     rows = model_query(drv, ["rows"])[0]
-    names = [n for n, k in rows.items() if k == "specified"]
+    names = [n for n, k in rows.items() if k == "specified" and (only is None or n in only)]
     sigs = {}
-    for n, s in zip(names, model_query(drv, ["sig " + n for n in names])):
+    helpers = ["CharNum", "SIntToByte", "SIntToHInt", "CharOrd", "ByteToSInt", "HIntToSInt", "SIntMinus"]
+    for n, s in zip(names + helpers, model_query(drv, ["sig " + n for n in names + helpers])):
         sigs[n] = s
     tests = []
-    cap = 12 if quick else 60
+    cap = cap or (40 if quick else 400)
     for n in names:
         s = sigs[n]
         if any(a not in ALDOR_TY for a in s["args"]) or s["ret"] not in ALDOR_TY:
@@ -707,7 +733,7 @@ def builtin_level(rep, exe, drv, rng, quick, base, stats):
     # programs of ~150 tests: one JVM each; when the JVM dies inside a test, that test is the culprit (the first
     # value missing from the output) and the rest of the chunk is run again
     todo = [keep[i:i + 150] for i in range(0, len(keep), 150)]
-    d = base + "/builtins"
+    d = base + "/builtins%d" % next(_uniq)
     seen_bad = set()
     rounds = 0
     while todo and rounds < 12:
@@ -785,7 +811,7 @@ def corpus_items():
         it = {"name": f[:-3], "src": txt, "unit": "c" + re.sub(r"\W", "", f[:-3])[:20],
               "levels": [int(x) for x in meta.get("levels", "1,3,9").split(",")], "key": meta.get("key")}
         if "expect-out" in meta:
-            it["oracle"] = {"out": json.loads(meta["expect-out"]), "status": "ok"}
+            it["oracle"] = {"out": json.loads(meta["expect-out"]), "status": meta.get("expect-status", "ok")}
         items.append(it)
     return items
 
@@ -828,14 +854,26 @@ def run(rep, tier):
     known_bad = G.known_bad_from(C.known_findings())
     C.write_if_changed(GEN, G.emit_coq(tr, known_bad))
     ties = G.broken_ties(tr)
-    proved = C.proof_stage(rep, ID, ["Props/Properties_C12.vo", "Java/Extract.vo"], "Props/Properties_C12.v", None, defer=True)
+    base = C.scratch("c12")
+    rng = C.rng("c12")
+    stats = collections.Counter()
+
+    def searcher(log):
+        """A row obligation no longer closes: evaluate exactly those rows on the real JVM and the interpreter over the dense
+        boundary product of operands and report an operand tuple inside the side condition on which they differ."""
+        failed = sorted(set(re.findall(r'ROW-FAILED"?\s*"(\w+)"', log)))
+        stats["rows_failed_in_proof"] = len(failed)
+        if not failed:
+            return
+        try:
+            builtin_level(rep, exe, model_driver(), C.rng("c12-searcher"), False, base, collections.Counter(), only=set(failed), cap=600)
+        except (C.BuildError, OSError, RuntimeError) as e:
+            rep.notes.append("searcher: %s" % str(e)[:200])
+    proved = C.proof_stage(rep, ID, ["Props/Properties_C12.vo", "Java/Extract.vo"], "Props/Properties_C12.v", searcher)
     if ties:
         rep.violation("rows of the Java builtin table that used to embed no longer do: %s" % ties,
                       {"rows": ties, "why": {r["name"]: r["exp"] for r in tr["rows"] if r["name"] in ties}}, no_input=True)
     t_proof = time.time() - t0
-    base = C.scratch("c12")
-    rng = C.rng("c12")
-    stats = collections.Counter()
     drv = None
     rows = {}
     try:
@@ -850,9 +888,9 @@ def run(rep, tier):
     corp = corpus_items()
     for it in corp:
         progs.append(dict(it, family="corpus", features=["corpus"]))
-    n_fam = 14 if quick else 160
+    n_fam = 14 if quick else 200
     n_end = 6 if quick else 40
-    n_mini = 10 if quick else 120
+    n_mini = 10 if quick else 150
     for i in range(n_fam):
         p = family_program(rng, rng.randrange(4, 16 if quick else 30))
         p.update(unit="h%d" % i, family="hand", levels=[q for q in LEVELS if not ("record-alias" in p["features"] and q > 3)])
@@ -890,14 +928,9 @@ def run(rep, tier):
         return o
     t1 = time.time()
     d = base + "/progs"
-    by_level = collections.defaultdict(list)
-    for p in progs:
-        for q in p["levels"]:
-            by_level[q].append(p)
-    jr, ir = {}, {}
-    for q, ps in sorted(by_level.items()):
-        jr.update(java_batch(exe, ps, "%s/q%d" % (d, q), [q], timeout=40 if quick else 90))
-        ir.update(interp_batch(exe, ps, "%s/q%d" % (d, q), [q], timeout=40 if quick else 90))
+    jobs = [(p, q) for p in progs for q in p["levels"]]
+    jr = java_batch(exe, None, d, None, timeout=40 if quick else 90, jobs=jobs)       # ONE javac for the whole sample
+    ir = interp_batch(exe, None, d, None, timeout=40 if quick else 90, jobs=jobs)
     t_run = time.time() - t1
     verdicts = collections.Counter()
     per_family = collections.defaultdict(collections.Counter)
@@ -973,8 +1006,8 @@ def run(rep, tier):
                 timings_s={"generate+proof": round(t_proof, 1), "builtin level (JVM)": round(t_builtin, 1), "programs": round(t_run, 1)})
     rep.assume(
         "exit status compared as a class (0 = ok, anything else = fail)",
-        "the jars (foamj.jar, foam.jar, aldor.jar: the Java run time and the Java-compiled Aldor libraries) are the pre-built ones of "
-        "/repo; the compiler, hence every generated .java file, is built from the current tree on every run",
+        "foam.jar and aldor.jar (the Java-compiled Aldor libraries) are the pre-built ones of /repo; the compiler - hence every "
+        "generated .java file - and the Java run time foamj (lib/java/src/foamj/*.java) are built from the current tree on every run",
         "side condition at program level: hand-written family - every machine-integer value is tracked by the generator and kept "
         "inside 32 bits; MiniAldor family - literal classes inside 32 bits and no machine-integer arithmetic (filter mini_filter, stated "
         "in input_distribution.mini_filter, rejections counted)",
@@ -995,6 +1028,12 @@ def signature_key(jr, q):
     m = re.search(r"Bug: Java not implemented: ([A-Za-z ]+:? ?[A-Za-z, ]*)", txt)
     if m:
         return "javagen:%s" % re.sub(r"\s+", " ", m.group(1)).strip().rstrip("(").strip()
+    m = re.search(r'Exception in thread "main" ([\w.]+)', jr.get("err", ""))
+    if m:
+        fr = re.search(r"^\s*at (foamj\.\w+\.\w+)\(", jr["err"], re.M)
+        if fr and "NumberFormatException" not in m.group(1) and "FoamException" not in m.group(1) \
+                and "FoamUserException" not in m.group(1):
+            return "javarun:%s:%s" % (m.group(1).split(".")[-1], fr.group(1))
     return None
 
 
